@@ -159,6 +159,10 @@ def run_case(case):
 def _base_case(draw):
   prog = draw(pipegen.programs(max_ops=5, allow_batch=False, allow_sink=False, scalar_start=False, allow_select=False, allow_apply=False))
   records = draw(st.lists(pipegen.record_strategy(), min_size=0, max_size=9))
+  if draw(st.integers(0, 5)) == 0:
+    # long sources: shards longer than the 64-element read-ahead of the data source
+    n = draw(st.integers(65, 210))
+    records = [{'a': i % 10, 'b': (i * 7) % 10, 'c': i % 3, 'n': {'x': i % 5, 'y': [i % 2, i % 4]}} for i in range(n)]
   nops = len(prog['ops'])
   ncuts = draw(st.integers(0, min(3, nops)))
   cuts = sorted(draw(st.lists(st.integers(0, nops), min_size=ncuts, max_size=ncuts)))
